@@ -288,6 +288,8 @@ impl<H: Host> Emulator<H> {
                 }
             }
         }
+        // Pokes bypass the bus, so the screen's copy of the display memory must be refreshed
+        self.controller.refresh_memory_dependent_devices();
     }
 
     /// Perform emulatio up to `emulation_limit` duration, returns actual elapsed duration
